@@ -5,7 +5,10 @@ From TV Require Import Lib.Obs C25.Model.
 Local Open Scope N_scope.
 
 Definition tag_of (o : outcome) : obs :=
-  match o with Ok => OTag "Ok" | ValueErr => OTag "ValueError" | CookieErr => OTag "CookieError" end.
+  match o with
+  | Ok => OTag "Ok" | ValueErr => OTag "ValueError" | CookieErr => OTag "CookieError"
+  | OSErr => OTag "OSError" | OverflowErr => OTag "OverflowError"
+  end.
 
 Definition obs_pair (p : str * str) : obs := OList [OBytes (fst p); OBytes (snd p)].
 
@@ -13,16 +16,20 @@ Definition obs_pair (p : str * str) : obs := OList [OBytes (fst p); OBytes (snd 
    "NoResponse" or the Set-Cookie header values of the response (in wire
    order) and HTTPServerRequest.cookies of the next request, which carries
    Cookie: <name=value part of every Set-Cookie header, joined by "; "> *)
-Definition out_obs (j : jar) : obs :=
-  match flush j with
+Definition out_obs (r : option (list str)) : obs :=
+  match r with
   | None => OTag "NoResponse"
   | Some hs => OList [OList (map OBytes hs);
                       OList (map obs_pair (request_cookies (cookie_header hs)))]
   end.
 
-Definition run_case (ops : list op) : obs :=
-  let '(res, j) := run_ops ops in
-  OList [OList (map tag_of res); out_obs j].
+(* input: the calls and how the request ends; observable: outcomes, status code, cookies *)
+Definition run_case (i : list op * ending) : obs :=
+  let '(ops, e) := i in
+  match run_request ops e with
+  | (res, Some (st, r)) => OList [OList (map tag_of res); OInt (Z.of_N st); out_obs r]
+  | (res, None) => OList [OList (map tag_of res); OInt 0; OTag "HeadAlreadySent"]
+  end.
 
 (* ---------------- the property as a checker on observables ---------------- *)
 
@@ -95,20 +102,24 @@ Fixpoint pairs_of (l : list obs) : option (list (str * str)) :=
   | _ => None
   end.
 
-Definition check_case (ops : list op) (o : obs) : bool :=
+Definition check_case (i : list op * ending) (o : obs) : bool :=
+  let '(ops, e) := i in
   match o with
-  | OList [OList res; out] =>
+  | OList [OList res; OInt st; out] =>
+      Z.eqb st (Z.of_N (status_of e)) &&
       match ok_calls (map lower ops) res with
       | None => false
       | Some acc =>
           let expected := dedup_last acc in
           match out with
           | OList [OList hs; OList cks] =>
-              (* the order of the Set-Cookie lines is not part of the property:
-                 as many headers as expected settings (whose names are distinct),
-                 every header is the expected one of its name, every expected
-                 setting has its header; and the next request sees exactly the
-                 expected (name, value) pairs *)
+              (* whatever the ending (normal, Finish, HTTPError, other exception,
+                 send_error, redirect), the response that is sent carries the
+                 expected settings.  The order of the Set-Cookie lines is not
+                 part of the property: as many headers as expected settings
+                 (whose names are distinct), every header is the expected one of
+                 its name, every expected setting has its header; and the next
+                 request sees exactly the expected (name, value) pairs *)
               Nat.eqb (List.length hs) (List.length expected)
               && forallb (header_expected expected) hs
               && forallb (fun c => existsb (str_eqb (c_name c)) (map header_name hs)) expected
